@@ -64,8 +64,13 @@ func (file *File) Readn(buf []byte, offset uint64) (int, error) {
 	ret := 0
 	for len(buf) > 0 {
 		n, err := file.ReadAt(buf, int64(offset))
+		if err == io.EOF {
+			// end of file: report what was read before it
+			break
+		}
+
 		if err != nil {
-			return 0, err
+			return ret, err
 		}
 
 		if n == 0 {
